@@ -5,6 +5,7 @@
 ;;        <res> = M<spans>;S<spans>   spans = #f -> "-"   else  i-j,x,i-j,...   (x = submatch unset)
 ;;        a Scheme error while matching one string gives  M!<msg>  /  S!<msg>
 ;;   or   id ERR <message>        when (regexp sre) raises
+;; also:  (id fold sre str ...) -> id G F<spans kons saw>;E<regexp-extract>;S<regexp-split>;P<regexp-partition>;R<regexp-replace with "-">
 ;; also:  (id chars cp ...)  ->  id K cp:fold:up:down:word ...   (char-level functions, hex)
 (import (scheme base) (scheme write) (scheme read) (scheme char) (scheme file)
         (scheme process-context) (chibi regexp) (chibi char-set) (chibi char-set full))
@@ -33,6 +34,39 @@
                 (lp (+ i 1)))))
         (get-output-string o))))
 
+;; list of spans -> "a-b,a-b" ("_" when empty); list of strings -> code points in hex joined by ".", "e" = empty
+;; string, strings joined by ",", "_" = empty list
+(define (span-list ls)
+  (if (null? ls)
+      "_"
+      (let ((o (open-output-string)))
+        (let lp ((ls ls) (first #t))
+          (if (pair? ls)
+              (begin
+                (if (not first) (write-char #\, o))
+                (write (caar ls) o) (write-char #\- o) (write (cdar ls) o)
+                (lp (cdr ls) #f))))
+        (get-output-string o))))
+
+(define (str-list ls)
+  (if (null? ls)
+      "_"
+      (let ((o (open-output-string)))
+        (let lp ((ls ls) (first #t))
+          (if (pair? ls)
+              (begin
+                (if (not first) (write-char #\, o))
+                (if (equal? (car ls) "")
+                    (write-char #\e o)
+                    (let lp2 ((cs (string->list (car ls))) (first #t))
+                      (if (pair? cs)
+                          (begin
+                            (if (not first) (write-char #\. o))
+                            (write-string (number->string (char->integer (car cs)) 16) o)
+                            (lp2 (cdr cs) #f)))))
+                (lp (cdr ls) #f))))
+        (get-output-string o))))
+
 (define char-set:word (char-set-union char-set:letter char-set:digit (char-set #\_)))
 
 (define (hex n) (number->string n 16))
@@ -53,6 +87,33 @@
            (write-string (hex (char->integer (char-downcase ch)))) (write-string ":")
            (write-string (if (char-set-contains? char-set:word ch) "1" "0"))))
        (cddr c)))
+     ((eq? (cadr c) 'fold)
+      ;; (id fold sre str ...) -> id G <res> ...   res = F<spans>;E<strs>;S<strs>;P<strs>;R<str>
+      (let ((rx (guard (e (#t (cons 'err (msg-of e)))) (regexp (car (cddr c))))))
+        (cond
+         ((pair? rx)
+          (write-string " ERR ") (write-string (cdr rx)))
+         (else
+          (write-string " G")
+          (for-each
+           (lambda (s)
+             (write-string " F")
+             (write-string
+              (guard (e (#t (string-append "!" (msg-of e))))
+                (span-list
+                 (regexp-fold rx
+                              (lambda (i m str acc)
+                                (cons (cons (regexp-match-submatch-start m 0) (regexp-match-submatch-end m 0)) acc))
+                              '() s (lambda (i m str acc) (reverse acc))))))
+             (write-string ";E")
+             (write-string (guard (e (#t (string-append "!" (msg-of e)))) (str-list (regexp-extract rx s))))
+             (write-string ";S")
+             (write-string (guard (e (#t (string-append "!" (msg-of e)))) (str-list (regexp-split rx s))))
+             (write-string ";P")
+             (write-string (guard (e (#t (string-append "!" (msg-of e)))) (str-list (regexp-partition rx s))))
+             (write-string ";R")
+             (write-string (guard (e (#t (string-append "!" (msg-of e)))) (str-list (list (regexp-replace rx s "-"))))))
+           (cdr (cddr c)))))))
      (else
       (let ((rx (guard (e (#t (cons 'err (msg-of e)))) (regexp (cadr c)))))
         (cond
